@@ -320,6 +320,18 @@ def main(argv=None):
     axioms = {}
     obligations = audit_theorems(mod.AUDIT)
     extra_obl = list(getattr(mod, "EXTRA_OBLIGATIONS", []))
+    # translator tie (harness/pytie.py): refinement theorems between the regenerated MiniPy terms of the anchored decision
+    # functions and the hand-written model functions; part of this property's obligations
+    tie = None
+    tie_info = {}
+    try:
+        import pytie
+
+        tie = pytie.TIES.get(pid)
+    except Exception:
+        traceback.print_exc()
+        broken.append("translator tie: harness/pytie.py cannot be imported")
+    tie_obl = audit_theorems(tie["audit"]) if tie else []
     translate_info = {}
     closure_files = []
 
@@ -327,7 +339,7 @@ def main(argv=None):
         with BuildLock():
             # 1. translate
             try:
-                for gen in getattr(mod, "GEN", []):
+                for gen in list(getattr(mod, "GEN", [])) + ([pytie.gen] if tie else []):
                     files = gen()
                     for rel, content in files.items():
                         changed = write_if_changed(os.path.join(LEAN, rel), content)
@@ -356,8 +368,19 @@ def main(argv=None):
                 broken.append("lake build %s failed" % mod.LEAN_PROPS)
                 for m in re.finditer(r"^error: (\S+\.lean):(\d+):(\d+)", out, re.M):
                     broken.append("%s:%s" % (m.group(1), m.group(2)))
+            tie_ok = False
+            if tie:
+                tie_ok, tout, tcmd, _dt = lake_build([tie["props"], "PysamlModel.Model.PyEnc"])
+                checker_cmds.append(tcmd)
+                if not tie_ok:
+                    log(tout[-4000:])
+                    build_log += "\n" + tout
+                    broken.append("lake build %s failed (the regenerated term of %s no longer refines the model function)" % (
+                        tie["props"], "/".join(tie["functions"])))
+                    for m in re.finditer(r"^error: (\S+\.lean):(\d+):(\d+)", tout, re.M):
+                        broken.append("%s:%s" % (m.group(1), m.group(2)))
             # 3. audit
-            hits, closure_files = grep_forbidden([mod.LEAN_PROPS])
+            hits, closure_files = grep_forbidden([mod.LEAN_PROPS] + ([tie["props"]] if tie else []))
             if hits:
                 broken.append("forbidden tokens: " + "; ".join(hits[:5]))
             if ok:
@@ -371,13 +394,26 @@ def main(argv=None):
                         broken.append("theorem not found by audit: " + th)
                     elif not set(axioms[th]) <= ALLOWED_AXIOMS:
                         broken.append("theorem %s uses axioms %s" % (th, axioms[th]))
+                if tie and tie_ok:
+                    taok, taxioms, taout, tacmd = run_audit(tie["audit"])
+                    checker_cmds.append(tacmd)
+                    axioms.update(taxioms)
+                    if not taok:
+                        log(taout[-3000:])
+                        broken.append("tie audit file failed to elaborate")
+                    for th in tie_obl:
+                        if th not in taxioms:
+                            broken.append("theorem not found by audit: " + th)
+                        elif not set(taxioms[th]) <= ALLOWED_AXIOMS:
+                            broken.append("theorem %s uses axioms %s" % (th, taxioms[th]))
                 if tier == "thorough" and not broken:
-                    cok, cout, ccmd = leanchecker([mod.LEAN_PROPS])
+                    cok, cout, ccmd = leanchecker([mod.LEAN_PROPS] + ([tie["props"]] if tie else []))
                     checker_cmds.append(ccmd)
                     if not cok:
                         log(cout)
                         broken.append("leanchecker rejected " + mod.LEAN_PROPS)
 
+    obligations = obligations + tie_obl
     discharged = 0 if broken else len(obligations) + len(extra_obl)
 
     # 4. cases
@@ -407,6 +443,11 @@ def main(argv=None):
         if broken and hasattr(mod, "search_cases"):
             for c in mod.search_cases(rng, broken, build_log):
                 add(c)
+        if broken and tie:
+            # the regenerated term no longer refines the model function: arguments on which the two differ, as cases of
+            # this property's own check, so that the violation can be shown on the real service provider
+            for c in pytie.search_cases(pid, rng, run_driver):
+                add(c)
     except Exception:
         traceback.print_exc()
         log("INFRA-ERROR: case generation failed")
@@ -431,6 +472,25 @@ def main(argv=None):
         log("INFRA-ERROR: harness failed on %d cases, first: %s\n%s" % (
             len(harness_errors), json.dumps(r["case"])[:500], r["impl"].get("__tb__", "")))
         return 2
+
+    if tie:
+        try:
+            tres = pytie.differential(pid, random.Random(seed * 7919 + 11), tier, run_driver)
+            tie_info = {"functions": tie["functions"], "theorems": tie_obl, "cases": tres["cases"],
+                        "interp_vs_cpython_disagreements": len(tres["interp_vs_cpython"]),
+                        "interp_vs_model_disagreements": len(tres["interp_vs_model"]), "outcomes": tres["outcomes"]}
+            if tres["interp_vs_cpython"]:
+                log("translator tie: the MiniPy interpreter and CPython disagree on %d of %d calls; first: %s" % (
+                    len(tres["interp_vs_cpython"]), tres["cases"], json.dumps(tres["interp_vs_cpython"][0])[:800]))
+                broken.append("translator tie: interpreter (Drivers/PyFuns.lean) vs CPython on %s" % "/".join(tie["functions"]))
+                save_replay(pid, "pytie_interp_vs_cpython", {"property": pid, "cases": tres["interp_vs_cpython"][:20]})
+            if tres["interp_vs_model"] and not any("refines" in b for b in broken):
+                broken.append("translator tie: regenerated term vs model function differ although the theorem built")
+        except DriverError as e:
+            log(str(e))
+            broken.append("translator tie: Drivers/PyFuns.lean unusable")
+        if broken:
+            discharged = 0
 
     violations = []  # (kind, rec)
     known_hits = {}
@@ -502,7 +562,7 @@ def main(argv=None):
 
     write_evidence(pid, tier, seed, mod, recs, obligations, extra_obl, discharged, checker_cmds, axioms, t0,
                    len(violations) + (1 if (rc and not violations) else 0), sorted(known_hits), translate_info, broken,
-                   closure_files, n_corpus)
+                   closure_files, n_corpus, tie_info)
     log("%s %s: %d cases, %d disagreements, %d violations, %d known-finding classes, obligations %d/%d, %.1fs" % (
         pid, tier, len(recs), len(disagreements), len(violations), len(known_hits), discharged,
         len(obligations) + len(extra_obl), time.time() - t0))
@@ -535,7 +595,7 @@ def shrink(mod, rec, known_keys):
 
 
 def write_evidence(pid, tier, seed, mod, recs, obligations, extra_obl, discharged, checker_cmds, axioms, t0, nviol,
-                   known_lines, translate_info, broken, closure_files, n_corpus):
+                   known_lines, translate_info, broken, closure_files, n_corpus, tie_info=None):
     paths = {}
     for r in recs:
         p = r["lean"].get("path", "?")
@@ -570,7 +630,10 @@ def write_evidence(pid, tier, seed, mod, recs, obligations, extra_obl, discharge
                 "Lean 4.33.0 kernel" + (" + leanchecker" if tier == "thorough" else ""),
                 "axioms allowed: propext, Classical.choice, Quot.sound (actual use per theorem in axioms_per_theorem)",
                 "correspondence harness harness/props/%s.py and runner.py (differential run of the Lean model against /repo)" % pid.lower(),
-            ] + list(getattr(mod, "TRUSTED", [])),
+            ] + list(getattr(mod, "TRUSTED", [])) + ([
+                "translator harness/translate/pyfuns.py (syntax-directed Python ast -> MiniPy term; drops logging calls, docstrings "
+                "and the message arguments of raise) and the MiniPy interpreter (Model/MiniPy.lean), validated on this run against "
+                "CPython on %d calls of %s" % (tie_info.get("cases", 0), "/".join(tie_info.get("functions", [])))] if tie_info else []),
             "evaluations": len(recs),
             "traces_validated_against_impl": sum(1 for r in recs if r["agree"]),
             "distinct_nontrivial": dn,
@@ -584,6 +647,7 @@ def write_evidence(pid, tier, seed, mod, recs, obligations, extra_obl, discharge
             "lean_files_in_closure": closure_files,
             "known_findings_reported": known_lines,
             "anchor_coverage": anchorcov.report(pid),
+            "translator_tie": tie_info or {},
             "broken_obligations": broken,
         },
         "assumptions": list(getattr(mod, "ASSUMPTIONS", [])),
